@@ -63,7 +63,7 @@ def wire(d, tag):
 # every fault: (lines to write, offset of the faulty line inside them, classes any ONE of which may report it,
 #               minimum number of diagnostics it produces)
 PAGE_FAULTS = ["unknown_directive", "unknown_role", "bad_option", "missing_include", "missing_literalinclude",
-               "missing_image", "undefined_ref", "undefined_substitution", "undefined_constant", "conflict", "arg_role", "todo"]
+               "missing_image", "undefined_ref", "undefined_substitution", "undefined_constant", "conflict", "arg_role", "todo", "monospace", "linksyntax"]
 POSTPROCESS_FAULTS = ["missing_include", "undefined_ref", "undefined_substitution"]
 YAML_FAULTS = ["unknown_role", "undefined_ref", "missing_image", "unknown_directive", "undefined_constant", "arg_role", "todo"]
 
@@ -83,6 +83,11 @@ def block_lines(b):
         return [f".. note:: Title with :bogusarg{k}:`x`", "", "   Body.", ""], 0, ["DocUtilsParseError"]
     if t == "todo":
         return [f".. todo:: write section {k}", ""], 0, ["TodoInfo"]
+    if t == "monospace":
+        # single backquotes (the default role): a warning about the markup, at the line of the markup
+        return [f"Paragraph {k} uses `single{k}` backquotes.", ""], 0, ["IncorrectMonospaceSyntax"]
+    if t == "linksyntax":
+        return [f"A link written as `text{k} <https://example.com/{k}>` without the underscore.", ""], 0, ["IncorrectLinkSyntax"]
     if t == "bad_option":
         return [".. list-table::", f"   :header-rows: notanumber{k}", "", "   * - a", "     - b", ""], 0, ["DocUtilsParseError"]
     if t == "missing_include":
@@ -150,6 +155,14 @@ def render(case):
         # a diagnostic - the diagnostic must be delivered all the same)
         toml.append(f'value = ":bogusbanner{k}:`x`"' if k % 2 else f'value = "Banner :bogusbanner{k}:`x`"')
     files["snooty.toml"] = "\n".join(toml) + "\n"
+    fk = cfg.get("facets")
+    if fk:
+        good = ['[[facets]]', 'category = "genre"', 'value = "reference"', '']
+        bad = ['[[facets]]', 'category = "genre"', 'value = "no-such-genre"', '']
+        files["source/facets.toml"] = "\n".join({"valid": good, "partly": good + bad, "invalid": bad}[fk]) + "\n"
+        if fk != "valid":
+            # one entry names a value the taxonomy does not have - whether or not another entry of the file is fine
+            faults.append({"file": "facets.toml", "line": None, "classes": ["MissingFacet"], "kind": "facets_value", "in": "config", "n": 0})
 
     # pages
     listed = [p["name"] for p in case["pages"] if p.get("toc") and p["name"] != "index"]
@@ -669,6 +682,8 @@ class C14(core.PropertyCheck):
         cfg = {"bad_substitutions": rng.choice([[1], [2], [1, 2]]) if rng.random() < 0.3 else [],
                "bad_banners": rng.choice([[1], [2], [2, 3]]) if rng.random() < 0.25 else [],
                "fail": rng.random() < 0.5}
+        if rng.random() < 0.3:
+            cfg["facets"] = rng.choice(["valid", "partly", "partly", "invalid"])
         case = {"kind": "e2e", "pages": pages, "includes": includes, "yaml": yamls, "config": cfg,
                 "toc_missing": [f"nopage-{j}" for j in range(rng.choice([0, 0, 1, 2]))]}
         _, faults = render(case)
